@@ -840,13 +840,14 @@ def c05j(ctx):
                             if isinstance(sel, int) and is_call(v, 'self._rel_tile_coord'):
                                 return sel
                             if sel == 'elem' and is_call(v, 'range') and v.args:
-                                t = unparse(v.args[0])
-                                return 0 if 'WIDTH' in t else 1 if 'HEIGHT' in t else None
+                                return 'loop:' + e.id      # full-range scan: both orders visit every slot
                         if e.id in fn.params:
                             p = [q for q in fn.params if q != 'self' and q != 'fh']
                             return p.index(e.id) if e.id in p[:2] else None
                     return None
                 r = [role(a) for a in args]
+                if all(isinstance(x, str) and x.startswith('loop:') for x in r) and r[0] != r[1]:
+                    r = [0, 1]
                 k = sum(1 for o in ctx.obs if o.construct.startswith('%s.%s:slot-args' % (cname, st.name)))
                 ctx.check(r == [0, 1], '%s.%s:slot-args%d' % (cname, st.name, k),
                           '%s(...) receives (column, row) in that order' % simple_name(c), fn, c,
@@ -947,10 +948,17 @@ def c05l(ctx):
         g = f.cfg
         adds = [x for x in f.walk() if is_call(x, 'bundle_files.add')]
         ok = bool(adds)
+        fdefs = Defs(f.node)
         for x in adds:
             a = x.args[0]
+            if isinstance(a, ast.Name):
+                d = fdefs.single(a.id)
+                if d and d[1] == 0 and is_call(d[0], 'self._get_bundle_fname_and_offset'):
+                    a = ast.Subscript(value=d[0], slice=ast.Constant(value=0), ctx=ast.Load())
+                elif d and d[1] is None:
+                    a = d[0]
             ok = ok and isinstance(a, ast.Subscript) and const_value(a.slice) == 0 and is_call(a.value, 'self._get_bundle_fname_and_offset') and \
-                unparse(a.value.args[0]).endswith('.coord')
+                unparse(a.value.args[0]).endswith('coord')
         ctx.check(ok, 'CompactCacheBase.%s:shortcut-key' % m, 'the single-bundle shortcut collects bundle file names (level + bundle origin) of all tiles', f,
                   fail='the single-bundle shortcut is not keyed by the bundle file name: tiles of different levels/bundles are sent to one bundle')
         sc = g.find(lambda x: is_call(x, 'self._get_bundle') and isinstance(getattr(x, '_parent', None), ast.Attribute))
